@@ -128,6 +128,28 @@ def run(tier, seed, out, drv, facts):
             prog = [{"op": "ctx", "body": body, "exit": "ret"}]
             got, want = progcheck.compare_program(out, drv, facts, prog, "rollback-leaf", rng=rng, as_violation=as_violation, shrink=False)
             out.case(("rollback-leaf", lname, json.dumps(t), json.dumps(x)), True, sample={"leaf_type": lname, "T": ta, "x": xa, "verdicts": progcheck.verdicts(got)})
+    # the same composite written with other separators the build-time validation lets through (runs of blanks, tabs,
+    # newlines, blanks around the whole string): one meaning, whatever the spelling
+    spellings = ["S  T", "S\tT", "T\t...", "...  T", "S \n T ...", " T ", "T\n", "...\tS\tT", "T   S", "S T  ..."]
+    for t, s_, x in rng.sample(list(itertools.product(trees[:8], repeat=3)), 40 if not thorough else 300):
+        def prog_for(forms):
+            body = [{"op": "check", "l": {"t": "pytree", "l": INT, "s": "T"}, "x": t},
+                    {"op": "check", "l": {"t": "pytree", "l": INT, "s": "S"}, "x": s_}]
+            for form in forms:
+                body.append({"op": "check", "l": {"t": "pytree", "l": INT, "s": form}, "x": x})
+                body.append({"op": "print"})
+            return [{"op": "ctx", "body": body, "exit": "ret"}]
+        canonical = [" ".join(f.split()) for f in spellings]
+        got_c, _ = impl_prog.run_program(prog_for(canonical), "typeguard", rng)
+        got_s, _ = impl_prog.run_program(prog_for(spellings), "typeguard", rng)
+        out.case(("spelling", json.dumps(t), json.dumps(s_), json.dumps(x)), True, sample={"T": t, "S": s_, "x": x, "verdicts": dict(zip(["T", "S"] + spellings, progcheck.verdicts(got_s)))})
+        vc, vs = progcheck.verdicts(got_c), progcheck.verdicts(got_s)
+        bc, bs = [o["m"] for o in got_c if o["o"] == "bindings"], [o["m"] for o in got_s if o["o"] == "bindings"]
+        if vc != vs or bc != bs:
+            k = next((i_ for i_, (a_, b_) in enumerate(zip(vc, vs)) if a_ != b_), None)
+            what = (f"PyTree[int, {spellings[k - 2]!r}] answers {vs[k]} but the same structure written {canonical[k - 2]!r} answers {vc[k]}" if k is not None and k >= 2
+                    else f"bindings differ between the two spellings: {bs} vs {bc}")
+            out.violation("spelling", what + " (whitespace only separates the names)", {"program": prog_for(spellings), "canonical_program": prog_for(canonical), "spelling": True})
     # unbound names inside composites, and None at top level
     for form in ["S T", "T S", "T ...", "... T", "U", "T U", "... U"]:
         for bind_t in (True, False):
@@ -178,6 +200,14 @@ def run(tier, seed, out, drv, facts):
 
 
 def replay(rep, out, drv, facts):
+    if rep.get("spelling"):
+        rng = Rng(0, "replay")
+        a, _ = impl_prog.run_program(rep["program"], "typeguard", rng)
+        b, _ = impl_prog.run_program(rep["canonical_program"], "typeguard", rng)
+        if progcheck.verdicts(a) != progcheck.verdicts(b):
+            out.violation("spelling", f"verdicts {progcheck.verdicts(a)} vs {progcheck.verdicts(b)} for the two spellings", rep)
+        out.case("replay", True, sample=rep)
+        return
     if "program" in rep:
         progcheck.compare_program(out, drv, facts, rep["program"], "replay", as_violation=as_violation)
     out.case("replay", True, sample=rep)
